@@ -10,7 +10,7 @@ from harness.props.vbsutil import read_all, render_end
 PROP = 'C10'
 RULE = ("IPM files of n records (quick n <= 6, thorough n <= 40) x every position k in 1..n x fault kind {truncated record, "
         "oversized length, undecodable MTI, unknown bitmap bit, bad field length, bad typed value, bad PDS content, bad ICC "
-        "content} x {VBS, 1014} x {latin_1, cp500}: records 1..k-1 must be delivered, then MciIpmDataError with "
+        "content} x {VBS, 1014} x {latin_1, cp500}, truncation at every byte of record k (n <= 6), records with space-padded elements: records 1..k-1 must be delivered, then MciIpmDataError with "
         "record_number == k and the raw bytes of record k (length prefix included) as context; the operator report must "
         "name record k. Non-trivial = k > 1 or a message-level fault; distinct = distinct (n, k, kind, format, codec)")
 TRUSTED = c01.TRUSTED + ["Model/Vbs.lean `ipmReadAll` models IpmReader.__next__ (error wrapping with record number and "
@@ -30,6 +30,8 @@ def good_record(i, codec):
         e('1240') + bm([2, 3]) + e('16' + '5' * 16 + '000000'),
         e('1644') + bm([24, 71]) + e('697' + f'{i:08d}'),
         e('1240') + bm([2, 4, 48]) + e('104444333322' + f'{i * 7:012d}' + '0170023003ABC0158000'),
+        # space-padded fixed elements and free text with runs of spaces (0x40 in EBCDIC: looks like block trailers)
+        e('1240') + bm([2, 41, 42, 72]) + e('16' + '5' * 16 + 'T1      ' + 'MERCHANT       ' + '012' + 'A  B  C     '),
     ]
     return variants[i % len(variants)]
 
@@ -67,7 +69,7 @@ def build(case):
             raw_k = item
         stream += item
         if i == k and kind == 'truncated':
-            cut = 4 + max(1, len(r) // 2)
+            cut = 4 + (case['cut'] if 'cut' in case else max(1, len(r) // 2))
             stream = stream[:len(stream) - len(item) + cut]
             raw_k = item[:cut]
             break
@@ -133,5 +135,9 @@ def explore(run, tier):
                         cases.append(c)
                         if kind == 'oversized':
                             cases.append(dict(c, extra=2 ** 31))
+                        if kind == 'truncated' and n <= 6:
+                            # every cut position inside record k (at least one byte of it survives, never all)
+                            for cut in range(1, len(good_record(k - 1, codec))):
+                                cases.append(dict(c, cut=cut))
     run.exhaustive.append(f'n in {ns} x every k x 8 fault kinds x 2 formats x 2 codecs')
     run.correspond(__name__, cases, use_model=run.use_model, chunk=60)
